@@ -20,7 +20,7 @@ func (c *Ctx) listWriterDiscipline() {
 	isWriterMethod := func(cs engine.CallSite, name string) bool {
 		cc := cs.Common()
 		if cc.IsInvoke() {
-			return cc.Method.Name() == name && engine.IsNamed(cc.Value.Type(), "imap", "parListWriter")
+			return engine.MethodName(cc.Method) == name && engine.IsNamed(cc.Value.Type(), "imap", "parListWriter")
 		}
 		sc := cc.StaticCallee()
 		if sc == nil || engine.ShortName(sc) != name {
